@@ -555,6 +555,15 @@ def _compute_constraints_of_bound_function(expression):
         value = expression.function.args[0].type.integer.minimum_value
     else:
         assert False, "Non-bound function"
+    if value in ("infinity", "-infinity"):
+        # The argument has no bound in that direction, so there is no constant to
+        # return.  Leave the result unbounded (and non-constant); the constraints
+        # check reports unbounded integer expressions.
+        expression.type.integer.minimum_value = "-infinity"
+        expression.type.integer.maximum_value = "infinity"
+        expression.type.integer.modular_value = "0"
+        expression.type.integer.modulus = "1"
+        return
     expression.type.integer.minimum_value = value
     expression.type.integer.maximum_value = value
     expression.type.integer.modular_value = value
